@@ -374,6 +374,12 @@ impl<B> Flow<B, Await100> {
     /// * `Ok(n)` - `n` number of input bytes were consumed. Call `proceed()` next
     /// * `Err(e)` - some error that is not recoverable
     pub fn try_read_100(&mut self, input: &[u8]) -> Result<usize, Error> {
+        // The outcome is already settled. Looking at the same input again must not
+        // record the close reason once more (close_reason has a fixed capacity).
+        if !self.inner.await_100_continue {
+            return Ok(0);
+        }
+
         // Try parsing a status line without any headers. The line we are looking for is:
         //
         //   HTTP/1.1 100 Continue\r\n\r\n
